@@ -18,8 +18,8 @@ P = ['C04', 'C05', 'C10', 'C11', 'C12', 'C13']
 UNITS.append(Unit('backmp11.process_event_internal', P, 'backmp11',
     Part(SB, [], 'process_result process_event_internal ( Event const & event , process_info info )'),
     'process_result process_event_internal(fsm_t* self, event_t event, process_info info)', 'evloop_mp11.spec.h',
-    xform=xf(['do_process_event', 'process_event_pool']), fire={'TRY': (1, 1), 'PP': (1, 1)}, replay=['queue', 'exc']))
+    xform=xf(['do_process_event', 'process_event_pool']), fire={'TRY': (1, 1), 'PP': (1, 1)}, replay=['queue', 'exc', 'block', 'defer']))
 UNITS.append(Unit('backmp11.process_completion_transition', ['C10', 'C11', 'C12', 'C04', 'C13'], 'backmp11',
     Part(SB, [], 'process_result process_completion_transition ( uint8_t region_id )'),
     'process_result process_completion_transition(fsm_t* self, uint8_t region_id)', 'evloop_mp11.spec.h',
-    xform=xf(['Transition_execute']), fire={'TRY': (1, 1), 'PP': (1, 1)}, replay=['compl', 'exc']))
+    xform=xf(['Transition_execute']), fire={'TRY': (1, 1), 'PP': (1, 1)}, replay=['queue', 'exc', 'block']))
